@@ -67,46 +67,64 @@ Proof.
   - destruct (name_eqb (t_name T) t); [apply cev_t_embed|reflexivity].
 Qed.
 
+(** lists without RenameTableC (the only lists nextStmts produces in the OSS build: mayFix is the identity).  The
+    RenameTableC arm of LintModel.span_change is unreachable there and still the one BEFORE fix C18-loadspans-rename. *)
+Definition no_rename_c (cl : list schange) : Prop :=
+  forallb (fun c => match c with RenameTableC _ _ => false | _ => true end) (all_changes cl) = true.
+
+Lemma etch_no_rename cs : existsb is_rename_t (map etch cs) = false.
+Proof. induction cs as [|x cs IH]; [reflexivity|]. simpl. rewrite IH. destruct x; reflexivity. Qed.
+
+Lemma rename_free_embed cl : no_rename_c cl -> rename_free (map esc cl).
+Proof.
+  unfold no_rename_c, rename_free. rewrite all_gchanges_embed. intros H.
+  induction (all_changes cl) as [|c l IH]; [reflexivity|]. simpl in *.
+  apply andb_true_iff in H as [H1 H2]. rewrite (IH H2), andb_true_r.
+  destruct c; simpl; try reflexivity; [rewrite etch_no_rename; reflexivity|discriminate].
+Qed.
+
 Lemma is_virtual_ecol d : is_virtual (ecol d) = c_virtual d.
 Proof. unfold is_virtual, ecol. simpl. destruct (c_virtual d); reflexivity. Qed.
 
-Lemma dropped_names_embed cl T cs :
+Lemma dropped_names_embed cl T cs : no_rename_c cl ->
   gdropped_names (loadSpans_g (map esc cl)) s_main (etab T) (map etch cs) = dropped_names (loadSpans cl) T cs.
 Proof.
-  unfold gdropped_names, dropped_names. rewrite flat_map_map. apply flat_map_ext.
+  intros NR. unfold gdropped_names, dropped_names. rewrite flat_map_map. apply flat_map_ext.
   intros tc. destruct tc as [c1|d|? ?|?|?|? ?]; simpl; try reflexivity.
-  rewrite ColumnSpan_hist, column_hist_embed. unfold ColumnSpan. rewrite loadSpans_cols.
+  rewrite ColumnSpan_hist by (apply rename_free_embed; exact NR). rewrite column_hist_embed. unfold ColumnSpan. rewrite loadSpans_cols.
   rewrite (proj2 (states_are_histories cl)). rewrite is_virtual_ecol. reflexivity.
 Qed.
 
-Lemma analyze_change_embed cl pos c :
+Lemma analyze_change_embed cl pos c : no_rename_c cl ->
   analyze_gchange (loadSpans_g (map esc cl)) pos (ech c) = map ediag (analyze_change (loadSpans cl) pos c).
 Proof.
-  destruct c as [T|T|T cs|a b]; simpl; try reflexivity.
-  - rewrite SchemaSpan_hist, schema_hist_embed, TableSpan_hist, table_hist_embed. simpl.
+  intros NR. destruct c as [T|T|T cs|a b]; simpl; try reflexivity.
+  - rewrite SchemaSpan_hist, schema_hist_embed, TableSpan_hist by (apply rename_free_embed; exact NR).
+    rewrite table_hist_embed. simpl.
     unfold TableSpan. rewrite loadSpans_state, (proj1 (states_are_histories cl)).
     destruct (span_eqb (state_of (tab_hist cl (t_name T))) SpanTemporary); reflexivity.
-  - rewrite dropped_names_embed. destruct (dropped_names (loadSpans cl) T cs); reflexivity.
+  - rewrite dropped_names_embed by exact NR. destruct (dropped_names (loadSpans cl) T cs); reflexivity.
 Qed.
 
 Lemma nil_schema_embed l : existsb nil_schema (map ech l) = false.
 Proof. induction l as [|c l IH]; [reflexivity|]. simpl. rewrite IH. destruct c; reflexivity. Qed.
 
-Lemma gdiags_embed cl : gdiags (map esc cl) = map ediag (Analyze cl).
+Lemma gdiags_embed cl : no_rename_c cl -> gdiags (map esc cl) = map ediag (Analyze cl).
 Proof.
-  unfold gdiags, Analyze. generalize (loadSpans_g (map esc cl)) (loadSpans cl) (analyze_change_embed cl).
-  intros sp sp' H. induction cl as [|sc cl IH]; [reflexivity|].
+  intros NR. unfold gdiags, Analyze.
+  generalize (loadSpans_g (map esc cl)) (loadSpans cl) (fun pos c => analyze_change_embed cl pos c NR).
+  intros sp sp' H. clear NR. induction cl as [|sc cl IH]; [reflexivity|].
   simpl. rewrite map_app, IH. f_equal.
   rewrite flat_map_map.
   induction (sc_changes sc) as [|c l IHl]; [reflexivity|]. simpl. rewrite map_app, IHl, H. reflexivity.
 Qed.
 
 (** the SQLite-derived analyzer is the single-schema instance of the engine-free one *)
-Lemma Analyze_refines error cl :
+Lemma Analyze_refines error cl : no_rename_c cl ->
   Analyze_g error (map esc cl) =
   GDone (map ediag (Analyze cl)) (nonempty (Analyze cl)) (nonempty (Analyze cl) && error).
 Proof.
-  unfold Analyze_g. rewrite all_gchanges_embed, nil_schema_embed, andb_false_r.
-  fold (gdiags (map esc cl)). rewrite gdiags_embed.
+  intros NR. unfold Analyze_g. rewrite all_gchanges_embed, nil_schema_embed, andb_false_r.
+  fold (gdiags (map esc cl)). rewrite gdiags_embed by exact NR.
   destruct (Analyze cl); reflexivity.
 Qed.
